@@ -1,8 +1,49 @@
-import Pun.Model.Proto
+import Pun.Model.Query
+import Pun.Gen.GridGen
 namespace Pun.Drv.C18
-open Pun
+open Pun Pun.Dss Pun.Query
+
+def showIvl : Except Err Ivl → String
+  | .ok c => s!"ok {showRat c.1} {showRat c.2}"
+  | .error e => s!"err {e}"
+
+def showIvls : Except Err (List Ivl) → String
+  | .ok cs => s!"ok {showList (cs.map (·.1))} {showList (cs.map (·.2))}"
+  | .error e => s!"err {e}"
+
+def showPB : Except Err PB → String
+  | .ok P => s!"ok {showList P.left} {showList P.right}"
+  | .error e => s!"err {e}"
+
+def parseN (s : String) : Option (Option Nat) :=
+  if s == "none" then some none else s.toNat?.map some
+
+def g := Gen.pValues
 
 def handle : List String → String
+  | [op, l, r, a] =>
+    match parseList l, parseList r with
+    | some l, some r =>
+      let P : PB := ⟨l, r⟩
+      match op with
+      | "cut" => match parseRat a with | some a => showIvl (alphaCut g P a) | none => "bad-op"
+      | "cuts" => match parseList a with | some a => showIvls (alphaCutArr g P a) | none => "bad-op"
+      | "cdf" => match parseRat a with | some a => showIvl (cdf g P a) | none => "bad-op"
+      | "cdfs" => match parseList a with | some a => showIvls (cdfArr g P a) | none => "bad-op"
+      | "outer" => match parseList a with | some a => showIvls (outerDiscretisation g P a) | none => "bad-op"
+      | "cond" => match parseList a with | some a => showPB (condensation g P a) | none => "bad-op"
+      | _ => "bad-op"
+    | _, _ => "bad-op"
+  | ["disc", l, r, n, lv] =>
+    match parseList l, parseList r, parseN n, parseList lv with
+    | some l, some r, some n, some lv => showIvls (discretise g Gen.steps ⟨l, r⟩ n lv)
+    | _, _, _, _ => "bad-op"
+  | ["pi", l, r, a, st] =>
+    match parseList l, parseList r, parseRat a with
+    | some l, some r, some a =>
+      if st == "n" then showIvl (getPI g ⟨l, r⟩ a true)
+      else if st == "w" then showIvl (getPI g ⟨l, r⟩ a false) else "bad-op"
+    | _, _, _ => "bad-op"
   | _ => "bad-op"
 
 end Pun.Drv.C18
